@@ -44,6 +44,9 @@ def h06_step(S):
     S.check("placed-at-its-scheduled-time", us_of(placed_at) == Sn)
     S.check("strictly-in-the-future", Sn > o.now)
     S.check("at-most-one-period-ahead", Sn <= o.now + o.p)
+    # the cadence stays on the grid of its time base: previous slot, else deferred_until, else creation time
+    base = o.Sched if o.has_S else (o.du if o.has_du else o.ts)
+    S.check("whole-periods-after-time-base", (Sn - base) % o.p == 0)
     # scheduled time of the iteration that just ran
     if o.has_S:
         S.check("one-full-period-after-previous-slot", Sn >= o.Sched + o.p)
